@@ -276,6 +276,13 @@ func (node *Node) ProcessBlock(ctx context.Context, block wire.Block) error {
 		}
 
 		txid := tx.TxHash()
+		if isRepeatedTx(txids, txid) {
+			// The merkle root doesn't change when the last 2^n txs of a block are repeated, so a body
+			// like that passes the merkle root check. The repeated txs are not part of the block.
+			logger.Warn(ctx, "Ignoring repeated tx in block : %s", txid)
+			merkleTree.AddHash(*txid)
+			continue
+		}
 		txids = append(txids, txid)
 
 		// Remove from unconfirmed. Only matching are in unconfirmed.
@@ -470,6 +477,17 @@ func (node *Node) ProcessBlock(ctx context.Context, block wire.Block) error {
 	}
 
 	return nil
+}
+
+// isRepeatedTx returns true if the txid is the same as an earlier txid of the block that is a power
+// of two positions back. Those are the only repeats that leave the merkle root unchanged.
+func isRepeatedTx(txids []*bitcoin.Hash32, txid *bitcoin.Hash32) bool {
+	for distance := 1; distance <= len(txids); distance *= 2 {
+		if txids[len(txids)-distance].Equal(txid) {
+			return true
+		}
+	}
+	return false
 }
 
 func convertMerkleProof(mp *wire.MerkleProof, header wire.BlockHeader) *client.MerkleProof {
